@@ -208,6 +208,15 @@ class DataPath:
         else:
             return out
 
+    def to_spec(self):
+        """Get the `{"path[.<datum type>][.<multi type>]": part specs}` form that
+        `from_spec` understands."""
+        key = "path"
+        for modifier in (self.DATUM_TYPE, self.MULTI_TYPE):
+            if modifier.value:
+                key += f".{modifier.name.lower()}"
+        return {key: self.to_part_specs()}
+
     @classmethod
     def from_part_specs(cls, *parts):
         """Construct a DataPath from parts that might include dicts, where each dict
